@@ -141,6 +141,8 @@ pub struct Routed {
     pub ed: EdgeData<f64>,
     pub graph: OGraph,
     pub mgen: Option<MGen>,
+    /// how the sampler object was obtained: "built", "cbor" or "json" (restored from its own serialisation)
+    pub via: &'static str,
 }
 
 pub fn q_exact_f64(q: &Q) -> f64 {
@@ -169,12 +171,41 @@ pub fn route(case: &Case, kin: &Kin) -> Result<Routed, String> {
         .collect();
     let mgen = sampler.observe().ok();
     Ok(Routed {
+        via: "built",
         mgen,
         kin: kin.clone(),
         sampler,
         ed,
         graph: g,
     })
+}
+
+/// Like `route`, but the sampler object is obtained through one of three construction paths chosen deterministically
+/// per configuration (hash of graph and signature mod 3): freshly built, restored from CBOR, restored from JSON (only
+/// when every table value is finite). The properties quantify over samplers, not over how they were obtained.
+pub fn route_via(case: &Case, kin: &Kin) -> Result<Routed, String> {
+    let mut r = route(case, kin)?;
+    let h = fnv(&format!("{}{:?}", graph_json(&r.graph), kin.sig)) % 3;
+    let d = r.graph.dim;
+    match h {
+        1 => {
+            if let Ok(s2) = Sampler::from_cbor(d, &r.sampler.to_cbor()) {
+                r.sampler = s2;
+                r.via = "cbor";
+            }
+        }
+        2 => {
+            let txt = r.sampler.to_json_string();
+            if !txt.contains("null") {
+                if let Ok(s2) = Sampler::from_json_str(d, &txt) {
+                    r.sampler = s2;
+                    r.via = "json";
+                }
+            }
+        }
+        _ => {}
+    }
+    Ok(r)
 }
 
 pub fn kin_json(k: &Kin) -> Value {
@@ -255,6 +286,8 @@ fn external_choices(edges: &[(u8, u8)], any_massive: bool) -> Vec<Vec<u8>> {
     }
     if n >= 3 {
         res.push(vec![vs[0], vs[1], vs[n - 1]]);
+        // the same set listed in another order
+        res.push(vec![vs[n - 1], vs[0], vs[1]]);
     }
     if n >= 4 {
         res.push(vec![vs[0], vs[1], vs[2], vs[3]]);
